@@ -474,6 +474,7 @@ type bframe struct {
 }
 
 type bwalker struct {
+	forced       map[string]int // condition text -> value, while a loop body is analysed for "every iteration but the last" / "the last"
 	e            *braceEngine
 	bf           *braceFn
 	at           *atomTable
@@ -495,6 +496,9 @@ func (w *bwalker) takeLabel() string {
 // cond evaluates a condition: 1 true, 0 false, -1 unknown (nondeterministic).
 func (w *bwalker) cond(x ast.Expr) int {
 	x = ast.Unparen(x)
+	if v, ok := w.forced[types.ExprString(x)]; ok {
+		return v
+	}
 	if tv, ok := w.info.Types[x]; ok && tv.Value != nil && tv.Value.Kind() == constant.Bool {
 		if constant.BoolVal(tv.Value) {
 			return 1
@@ -945,6 +949,39 @@ func (w *bwalker) stmt(s ast.Stmt, in dset) dset {
 			cur = w.calls(l.X, cur)
 			body = l.Body
 		}
+		// `for i, v := range xs { if i < len(xs)-1 { A } else { B } }`: B runs in the last iteration only. Every other
+		// iteration must be neutral; what the last one emits is emitted once (if xs can be empty: once or not at all).
+		if rs, isRange := t.(*ast.RangeStmt); isRange {
+			if condText, lastVal, ok := w.lastIterCond(rs); ok {
+				lbl := w.takeLabel()
+				run := func(v int) dset {
+					if w.forced == nil {
+						w.forced = map[string]int{}
+					}
+					w.forced[condText] = v
+					w.breaks = append(w.breaks, &bframe{loop: true, brk: dset{}, cont: dset{}, label: lbl})
+					res := w.stmts(body.List, dset{delta{}: pathInfo{atoms: w.atomsDesc}})
+					fr := w.breaks[len(w.breaks)-1]
+					w.breaks = w.breaks[:len(w.breaks)-1]
+					delete(w.forced, condText)
+					return union(union(res, fr.brk), fr.cont)
+				}
+				for k, p := range run(1 - lastVal) {
+					if k.brace != 0 || k.paren != 0 {
+						w.bf.loopBad = appendUniq(w.bf.loopBad, fmt.Sprintf("loop body at line %d emits net braces %+d parens %+d per iteration before the last on path {%s} via [%s]",
+							w.bf.pkg.Fset.Position(s.Pos()).Line, k.brace, k.paren, p.atoms, strings.Join(lastN(p.trail, 5), " > ")))
+					}
+				}
+				out := dset{}
+				if !w.nonEmpty(rs.X, 0) {
+					out = union(out, cur)
+				}
+				for k := range run(lastVal) {
+					out = union(out, w.addAll(cur, k, "last iteration"))
+				}
+				return out
+			}
+		}
 		// body must be neutral on every path (it may run any number of times)
 		w.breaks = append(w.breaks, &bframe{loop: true, brk: dset{}, cont: dset{}, label: w.takeLabel()})
 		res := w.stmts(body.List, dset{delta{}: pathInfo{atoms: w.atomsDesc}})
@@ -1012,4 +1049,191 @@ func (w *bwalker) stmt(s ast.Stmt, in dset) dset {
 	}
 	w.bf.undec = appendUniq(w.bf.undec, fmt.Sprintf("statement %T", s))
 	return in
+}
+
+
+// lastIterCond finds, in the body of `for i := range xs` / `for i, v := range xs`, a condition that singles out the last
+// iteration: i < len(xs)-1, i+1 < len(xs), i != len(xs)-1 (true before the last) or i == len(xs)-1, i+1 == len(xs)
+// (true in the last). It returns the condition's text and the value it has in the last iteration.
+func (w *bwalker) lastIterCond(rs *ast.RangeStmt) (string, int, bool) {
+	key, _ := rs.Key.(*ast.Ident)
+	if key == nil || key.Name == "_" || rs.Tok != token.DEFINE {
+		return "", 0, false
+	}
+	ko := w.info.Defs[key]
+	xs := types.ExprString(rs.X)
+	if t := w.info.TypeOf(rs.X); t == nil {
+		return "", 0, false
+	} else if _, isSlice := t.Underlying().(*types.Slice); !isSlice {
+		return "", 0, false
+	}
+	// i and xs must not be assigned in the body
+	mod := false
+	ast.Inspect(rs.Body, func(n ast.Node) bool {
+		switch t := n.(type) {
+		case *ast.AssignStmt:
+			for _, l := range t.Lhs {
+				if id, ok := l.(*ast.Ident); ok && (w.info.ObjectOf(id) == ko || id.Name == xs) && t.Tok != token.DEFINE {
+					mod = true
+				}
+			}
+		case *ast.IncDecStmt:
+			if id, ok := t.X.(*ast.Ident); ok && w.info.ObjectOf(id) == ko {
+				mod = true
+			}
+		}
+		return true
+	})
+	if mod {
+		return "", 0, false
+	}
+	isKey := func(e ast.Expr) bool {
+		id, ok := ast.Unparen(e).(*ast.Ident)
+		return ok && w.info.Uses[id] == ko
+	}
+	isLen := func(e ast.Expr) bool {
+		call, ok := ast.Unparen(e).(*ast.CallExpr)
+		if !ok || len(call.Args) != 1 || types.ExprString(call.Args[0]) != xs {
+			return false
+		}
+		id, ok := call.Fun.(*ast.Ident)
+		if !ok {
+			return false
+		}
+		_, isB := w.info.Uses[id].(*types.Builtin)
+		return isB && id.Name == "len"
+	}
+	isOne := func(e ast.Expr) bool {
+		tv, ok := w.info.Types[e]
+		return ok && tv.Value != nil && tv.Value.ExactString() == "1"
+	}
+	// i ⋈ len(xs)-1   or   i+1 ⋈ len(xs)
+	sides := func(l, r ast.Expr) bool {
+		if isKey(l) {
+			if be, ok := ast.Unparen(r).(*ast.BinaryExpr); ok && be.Op == token.SUB && isLen(be.X) && isOne(be.Y) {
+				return true
+			}
+		}
+		if be, ok := ast.Unparen(l).(*ast.BinaryExpr); ok && be.Op == token.ADD && isKey(be.X) && isOne(be.Y) && isLen(r) {
+			return true
+		}
+		return false
+	}
+	text, last, found := "", 0, false
+	ast.Inspect(rs.Body, func(n ast.Node) bool {
+		is, ok := n.(*ast.IfStmt)
+		if !ok || found {
+			return !found
+		}
+		be, ok := ast.Unparen(is.Cond).(*ast.BinaryExpr)
+		if !ok || !sides(be.X, be.Y) {
+			return true
+		}
+		switch be.Op {
+		case token.LSS, token.NEQ:
+			text, last, found = types.ExprString(ast.Unparen(is.Cond)), 0, true
+		case token.EQL:
+			text, last, found = types.ExprString(ast.Unparen(is.Cond)), 1, true
+		}
+		return true
+	})
+	return text, last, found
+}
+
+// nonEmpty: the slice expression has at least one element whenever it is evaluated — a composite literal with
+// elements, append(…, e) with at least one element, a local whose every assignment is such a value, or a call of a
+// function of the package all of whose returns are.
+func (w *bwalker) nonEmpty(x ast.Expr, depth int) bool {
+	if depth > 4 {
+		return false
+	}
+	x = ast.Unparen(x)
+	switch t := x.(type) {
+	case *ast.CompositeLit:
+		return len(t.Elts) > 0
+	case *ast.CallExpr:
+		if id, ok := t.Fun.(*ast.Ident); ok {
+			if _, isB := w.info.Uses[id].(*types.Builtin); isB && id.Name == "append" {
+				return len(t.Args) >= 2 && !t.Ellipsis.IsValid()
+			}
+		}
+		if f, ok := core.CalleeObj(w.info, t).(*types.Func); ok && f.Pkg() == w.bf.pkg.Types {
+			for _, file := range w.bf.pkg.Syntax {
+				for _, d := range file.Decls {
+					fd, ok := d.(*ast.FuncDecl)
+					if !ok || fd.Body == nil || w.info.Defs[fd.Name] != types.Object(f) {
+						continue
+					}
+					all, n := true, 0
+					ast.Inspect(fd.Body, func(y ast.Node) bool {
+						if _, isLit := y.(*ast.FuncLit); isLit {
+							return false
+						}
+						if rs, ok := y.(*ast.ReturnStmt); ok {
+							n++
+							if len(rs.Results) != 1 || !(&bwalker{info: w.info, bf: w.bf, e: w.e}).nonEmptyIn(rs.Results[0], fd.Body, depth+1) {
+								all = false
+							}
+						}
+						return true
+					})
+					return all && n > 0
+				}
+			}
+		}
+		return false
+	case *ast.Ident:
+		return w.nonEmptyIn(t, w.bf.decl.Body, depth)
+	}
+	return false
+}
+
+// nonEmptyIn resolves identifiers through their assignments inside the given function body.
+func (w *bwalker) nonEmptyIn(x ast.Expr, body *ast.BlockStmt, depth int) bool {
+	id, ok := ast.Unparen(x).(*ast.Ident)
+	if !ok {
+		return w.nonEmpty(x, depth)
+	}
+	o := w.info.ObjectOf(id)
+	if o == nil || depth > 4 {
+		return false
+	}
+	all, n := true, 0
+	ast.Inspect(body, func(y ast.Node) bool {
+		switch t := y.(type) {
+		case *ast.AssignStmt:
+			for i, l := range t.Lhs {
+				lid, ok := l.(*ast.Ident)
+				if !ok || w.info.ObjectOf(lid) != o {
+					continue
+				}
+				n++
+				if len(t.Lhs) != len(t.Rhs) || (t.Tok != token.DEFINE && t.Tok != token.ASSIGN) || !w.nonEmptyIn(t.Rhs[i], body, depth+1) {
+					all = false
+				}
+			}
+		case *ast.ValueSpec:
+			for i, nm := range t.Names {
+				if w.info.Defs[nm] != o {
+					continue
+				}
+				if i < len(t.Values) {
+					n++
+					if !w.nonEmptyIn(t.Values[i], body, depth+1) {
+						all = false
+					}
+				} else if !strings.HasPrefix(nm.Name, "__inl") {
+					all = false // zero value: may be observed empty (result variables of inlined calls are always assigned before use)
+				}
+			}
+		case *ast.UnaryExpr:
+			if t.Op == token.AND {
+				if aid, ok := ast.Unparen(t.X).(*ast.Ident); ok && w.info.ObjectOf(aid) == o {
+					all = false
+				}
+			}
+		}
+		return true
+	})
+	return all && n > 0
 }
